@@ -82,15 +82,27 @@ def given_value(key, kind, obj):
     return a
 
 
-def init_vars_task(cls_name, mode, given_keys, ic_none):
+def init_vars_task(cls_name, mode, given_keys, ic_none, prior=False):
+    """prior: the element was initialised before (its variable dicts hold arbitrary earlier values):
+    init_vars must not depend on them"""
     decl = DECLARED[cls_name]
-    label = f"engine={mode},given={'+'.join(given_keys) or ('None' if ic_none else '-')}"
+    label = f"engine={mode},given={'+'.join(given_keys) or ('None' if ic_none else '-')}" + (",initialised before" if prior else "")
 
     def run(interp, c):
         eng = setup_engine(interp, c, mode)
         obj, k = make_element(interp, cls_name)
         fn, owner = k.lookup("init_vars")
         interp.inline_only.add(fn.qualname)
+        if prior:
+            for g_, key_, kind_, _ in decl:
+                old = given_value("previous." + key_, kind_, obj)
+                if obj.attrs.get(g_) is None:
+                    obj.attrs[g_] = {}
+                obj.attrs[g_][key_] = old
+            if obj.attrs.get("states") is not None:
+                obj.attrs["next_states"] = {key_: given_value("previous.next." + key_, "sc", obj) for key_ in obj.attrs["states"]}
+        ns_before = obj.attrs.get("next_states")
+        ns_snapshot = None if ns_before is None else dict(ns_before)
         # the supplied dict (all keys given are symbolic values; an unknown extra key is ignored)
         ic = None if ic_none else {key: given_value(key, kind, obj) for (_, key, kind, _) in decl if key in given_keys}
         if ic is not None:
@@ -174,7 +186,7 @@ def init_vars_task(cls_name, mode, given_keys, ic_none):
             c.oblige("frame", "the supplied init_conditions dict is not modified (contents)", T.const(ic == ic_snapshot and list(ic) == list(ic_snapshot)), assume_after=False)
         for key, (buf, el) in bufs.items():
             c.oblige("frame", f"the supplied array {key!r} is not modified", T.const(buf.elem is el), assume_after=False)
-        c.oblige("frame", "next_states is not touched by init_vars", T.const(obj.attrs.get("next_states") is None), assume_after=False)
+        c.oblige("frame", "next_states is not touched by init_vars", T.const(obj.attrs.get("next_states") is ns_before and (ns_before is None or dict(ns_before) == ns_snapshot)), assume_after=False)
 
     return Task(f"{MODULE_OF[cls_name]}:{cls_name}.init_vars<{label}>", run, props=P_W, func=f"{MODULE_OF[cls_name]}:{cls_name}.init_vars", config=label)
 
@@ -189,6 +201,9 @@ def tasks_init_vars():
             out.append(init_vars_task(cls_name, mode, (), True))
             for sub in subsets:
                 out.append(init_vars_task(cls_name, mode, sub, False))
+        if keys:  # a second initialisation of the same object
+            out.append(init_vars_task(cls_name, ENGINE_MODES[0], (), True, prior=True))
+            out.append(init_vars_task(cls_name, ENGINE_MODES[0], (keys[0],), False, prior=True))
     return out
 
 
@@ -393,7 +408,7 @@ def ctor_task(cls_name, variant=None):
             for g in ("states", "next_states", "actions", "disturbances"):
                 c.oblige("post", f"{g} starts as None", T.const(obj.attrs.get(g, 0) is None), assume_after=False)
 
-    return Task(f"{MODULE_OF[cls_name]}:{cls_name}.__init__<{label}>", run, props=("C01", "C07", "C09"), func=f"{MODULE_OF[cls_name]}:{cls_name}.__init__", config=label)
+    return Task(f"{MODULE_OF[cls_name]}:{cls_name}.__init__<{label}>", run, props=("C01", "C07", "C09") + (("C18", "C14") if cls_name in ("Link", "LinkWithVsl") else ()), func=f"{MODULE_OF[cls_name]}:{cls_name}.__init__", config=label)
 
 
 def tasks_ctors():
